@@ -882,4 +882,173 @@ theorem opABSlice_spec {P : Touch → Prop} {s : State} (b : Nat) (st fi : Optio
         exact ⟨inv_pushBuf (c2.inv.of_sameShape r2) _, r1⟩
     · exact ⟨inv_pushBuf c2.inv _, c2.log⟩
 
+/-! ## reading methods -/
+
+theorem scanUp_spec {P : Touch → Prop} {v : View} (svz : Bool) (se : Num) (hP : PRange P v.buf v.lo v.hi) :
+    ∀ (n : Nat) (s : State) (k : Nat), LogAll P s → RangeOK s v.buf v.hi → k + n ≤ v.length →
+      LogAll P (scanUp s v svz se k n).2 ∧ SameShape s (scanUp s v svz se k n).2 := by
+  intro n
+  induction n with
+  | zero => intro s k hlog _ _; exact ⟨hlog, SameShape.refl s⟩
+  | succ n ih =>
+    intro s k hlog hr h
+    unfold scanUp; dsimp only
+    obtain ⟨a, b⟩ := readElem_spec hlog hr hP (by omega : k < v.length)
+    split
+    · exact ⟨a, b⟩
+    · obtain ⟨c, d⟩ := ih (s.readElem v k).2 (k + 1) a (hr.of_sameShape b) (by omega)
+      exact ⟨c, b.trans d⟩
+
+theorem scanDown_spec {P : Touch → Prop} {v : View} (se : Num) (hP : PRange P v.buf v.lo v.hi) :
+    ∀ (n : Nat) (s : State), LogAll P s → RangeOK s v.buf v.hi → n ≤ v.length →
+      LogAll P (scanDown s v se n).2 ∧ SameShape s (scanDown s v se n).2 := by
+  intro n
+  induction n with
+  | zero => intro s hlog _ _; exact ⟨hlog, SameShape.refl s⟩
+  | succ n ih =>
+    intro s hlog hr h
+    unfold scanDown; dsimp only
+    obtain ⟨a, b⟩ := readElem_spec hlog hr hP (by omega : n < v.length)
+    split
+    · exact ⟨a, b⟩
+    · obtain ⟨c, d⟩ := ih (s.readElem v n).2 a (hr.of_sameShape b) (by omega)
+      exact ⟨c, b.trans d⟩
+
+/-- the start index of lastIndexOf never exceeds `length - 1` — the bound seeded mutation C17-m1 breaks -/
+theorem lastFrom_bound (from_ : Option IArg) (l : Int) (hl : 0 < l) : (lastFrom from_ l + 1).toNat ≤ l.toNat := by
+  unfold lastFrom
+  split
+  · omega
+  · split
+    · omega
+    · split <;> omega
+
+theorem firstFrom_bound (n l : Int) (h : n < l) (hl : 0 < l) :
+    (firstFrom n l).toNat + (l - firstFrom n l).toNat ≤ l.toNat := by
+  unfold firstFrom
+  split <;> omega
+
+theorem attached_of_not_or {a : Bool} {b : Bool} (h : ¬ (!a || b) = true) : a = true := by
+  cases a <;> simp at h ⊢
+
+theorem opSearch_spec {P : Touch → Prop} {s : State} {vi : Nat} {v : View} (mode : SearchMode) (se : Num)
+    (from_ : Option IArg) (hv : s.views[vi]? = some v) (c : Ctx P s) (hP : PRange P v.buf v.lo v.hi) :
+    Ctx P (opSearch s vi mode se from_).2 := by
+  unfold opSearch; rw [hv]; dsimp only
+  have c1 := c.applyDet (oDet from_)
+  have m1 := mem_applyDet (mem_of_getElem? hv) (oDet from_)
+  split
+  · exact c
+  · split
+    · exact c
+    · rename_i hl0
+      have hl : (0 : Int) < (v.length : Int) := by
+        have : ¬ ((v.length : Int) = 0) := by simpa using hl0
+        omega
+      split
+      · split
+        · exact c1
+        · rename_i h
+          have ha : (s.applyDet (oDet from_)).attached v.buf = true := by
+            cases hh : (s.applyDet (oDet from_)).attached v.buf with
+            | true => rfl
+            | false => simp [hh] at h
+          have hb := lastFrom_bound from_ v.length hl
+          simp only [Int.toNat_natCast] at hb
+          obtain ⟨a, b⟩ := scanDown_spec se hP _ _ c1.log (c1.inv.rangeOK m1 ha) hb
+          exact ⟨c1.inv.of_sameShape b, a⟩
+      · split
+        · exact c1
+        · rename_i hn
+          split
+          · exact c1
+          · rename_i h
+            have ha : (s.applyDet (oDet from_)).attached v.buf = true := by
+              cases hh : (s.applyDet (oDet from_)).attached v.buf with
+              | true => rfl
+              | false => simp [hh] at h
+            have hb := firstFrom_bound (oVal from_ 0) v.length (by omega) hl
+            simp only [Int.toNat_natCast] at hb
+            obtain ⟨a, b⟩ := scanUp_spec (mode == .includes) se hP _ _ _ c1.log (c1.inv.rangeOK m1 ha) hb
+            exact ⟨c1.inv.of_sameShape b, a⟩
+
+theorem opAt_spec {P : Touch → Prop} {s : State} {vi : Nat} {v : View} (idx : IArg)
+    (hv : s.views[vi]? = some v) (c : Ctx P s) (hP : PRange P v.buf v.lo v.hi) :
+    Ctx P (opAt s vi idx).2 := by
+  unfold opAt; rw [hv]; dsimp only
+  have c1 := c.applyDet idx.det
+  have m1 := mem_applyDet (mem_of_getElem? hv) idx.det
+  split
+  · exact c
+  · split
+    · exact c1
+    · rename_i hi
+      split
+      · exact c1
+      · rename_i ha
+        have hk : (atIndex idx.val v.length).toNat < v.length := by
+          simp only [Bool.or_eq_true, decide_eq_true_eq, not_or] at hi
+          omega
+        obtain ⟨a, b⟩ := readElem_spec c1.log (c1.inv.rangeOK m1 (not_not_attached ha)) hP hk
+        exact ⟨c1.inv.of_sameShape b, a⟩
+
+theorem visitRead_spec {P : Touch → Prop} {s : State} {v : View} {k : Nat} (c : Ctx P s) (m : v ∈ s.views)
+    (hP : PRange P v.buf v.lo v.hi) (hk : k < v.length) :
+    Ctx P (visitRead s v k).2 ∧ (visitRead s v k).2.views = s.views := by
+  unfold visitRead
+  split
+  · rename_i ha
+    obtain ⟨r1, r2⟩ := readElem_spec c.log (c.inv.rangeOK m ha) hP hk
+    exact ⟨⟨c.inv.of_sameShape r2, r1⟩, r2.views⟩
+  · exact ⟨c, rfl⟩
+
+theorem visitLoop_spec {P : Touch → Prop} {v : View} (bwd : Bool) (detAt : Nat) (det : List Nat)
+    (hP : PRange P v.buf v.lo v.hi) :
+    ∀ (n : Nat) (s : State) (i : Nat) (acc : List (Option Num)), Ctx P s → v ∈ s.views → i + n ≤ v.length →
+      Ctx P (visitLoop s v bwd detAt det i n acc).1 := by
+  intro n
+  induction n with
+  | zero => intro s i acc c _ _; exact c
+  | succ n ih =>
+    intro s i acc c m h
+    unfold visitLoop; dsimp only
+    have hk : (if bwd = true then n else i) < v.length := by split <;> omega
+    obtain ⟨c1, v1⟩ := visitRead_spec c m hP hk
+    apply ih
+    · split
+      · exact c1.applyDet det
+      · exact c1
+    · split
+      · rw [applyDet_views, v1]; exact m
+      · rw [v1]; exact m
+    · omega
+
+theorem opVisit_spec {P : Touch → Prop} {s : State} {vi : Nat} {v : View} (bwd : Bool) (detAt : Nat) (det : List Nat)
+    (hv : s.views[vi]? = some v) (c : Ctx P s) (hP : PRange P v.buf v.lo v.hi) :
+    Ctx P (opVisit s vi bwd detAt det).2 := by
+  unfold opVisit; rw [hv]; dsimp only
+  split
+  · exact c
+  · exact visitLoop_spec bwd detAt det hP v.length s 0 [] c (mem_of_getElem? hv) (by omega)
+
+theorem joinLoop_spec {P : Touch → Prop} {v : View} (hP : PRange P v.buf v.lo v.hi) :
+    ∀ (n : Nat) (s : State) (k : Nat) (acc : List (Option Num)), Ctx P s → v ∈ s.views → k + n ≤ v.length →
+      Ctx P (joinLoop s v k n acc).1 := by
+  intro n
+  induction n with
+  | zero => intro s k acc c _ _; exact c
+  | succ n ih =>
+    intro s k acc c m h
+    unfold joinLoop; dsimp only
+    obtain ⟨c1, v1⟩ := visitRead_spec c m hP (by omega : k < v.length)
+    exact ih _ _ _ c1 (by rw [v1]; exact m) (by omega)
+
+theorem opJoin_spec {P : Touch → Prop} {s : State} {vi : Nat} {v : View} (det : List Nat) (pe : Bool)
+    (hv : s.views[vi]? = some v) (c : Ctx P s) (hP : PRange P v.buf v.lo v.hi) :
+    Ctx P (opJoin s vi det pe).2 := by
+  unfold opJoin; rw [hv]; dsimp only
+  split
+  · exact c
+  · exact joinLoop_spec hP v.length _ 0 [] (c.applyDet det) (mem_applyDet (mem_of_getElem? hv) det) (by omega)
+
 end GojaModel.C17
